@@ -8,7 +8,8 @@ sys.path.insert(0, ROOT)
 import props
 REPO = os.environ.get('VERIF_REPO', '/repo')
 PY = shutil.which('python3-vt') or sys.executable
-OUT = os.path.join(ROOT, 'out')
+OUT = os.environ.get('VERIF_OUT') or os.path.join(ROOT, 'out')
+EVDIR = os.path.join(OUT, 'evidence') if os.environ.get('VERIF_OUT') else os.path.join(ROOT, 'evidence')
 
 def compile_tu(src, std, exc, defs, tag, extra=()):
     os.makedirs(os.path.join(OUT, 'll'), exist_ok=True)
@@ -165,8 +166,8 @@ def main():
                             n_functions_encoded=len(funcs),
                             inconclusive=inconc),
               assumptions=props.COMMON_ASSUMPTIONS + P.get('assumptions', []))
-    os.makedirs(os.path.join(ROOT, 'evidence'), exist_ok=True)
-    json.dump(ev, open(os.path.join(ROOT, 'evidence', pid + '.json'), 'w'), indent=1)
+    os.makedirs(EVDIR, exist_ok=True)
+    json.dump(ev, open(os.path.join(EVDIR, pid + '.json'), 'w'), indent=1)
     for h in hsum:
         print('%-28s %-13s %6.1fs  %s' % (h['harness'], h['verdict'], h['wall_s'], ' '.join('%s=%s' % (q['name'], q['result']) for q in h['queries'])))
     for l in known_lines: print(l)
